@@ -429,7 +429,7 @@ func (d *Decoder) processNodeElt(ectx evaluationContext, startElement xml.StartE
 					t.textOffsets[encoding.SubjectStatementOffsets] = *eSubjectLocation
 				}
 
-				if attr.Metadata != nil {
+				if attr.Metadata != nil && attr.Metadata != emptyAttrMetadata {
 					t.textOffsets[encoding.PredicateStatementOffsets] = attr.Metadata.Name
 
 					if attr.Metadata.Value != nil {
@@ -483,7 +483,7 @@ func (d *Decoder) processNodeElt(ectx evaluationContext, startElement xml.StartE
 				t.textOffsets[encoding.SubjectStatementOffsets] = *eSubjectLocation
 			}
 
-			if attr.Metadata != nil {
+			if attr.Metadata != nil && attr.Metadata != emptyAttrMetadata {
 				t.textOffsets[encoding.PredicateStatementOffsets] = attr.Metadata.Name
 
 				if attr.Metadata.Value != nil {
@@ -839,7 +839,7 @@ func (d *Decoder) processPropertyElt(ectx evaluationContext, startElement xml.St
 									t.textOffsets[encoding.SubjectStatementOffsets] = otv
 								}
 
-								if attr.Metadata != nil {
+								if attr.Metadata != nil && attr.Metadata != emptyAttrMetadata {
 									t.textOffsets[encoding.PredicateStatementOffsets] = attr.Metadata.Name
 
 									if attr.Metadata.Value != nil {
@@ -903,7 +903,7 @@ func (d *Decoder) processPropertyElt(ectx evaluationContext, startElement xml.St
 								t.textOffsets[encoding.SubjectStatementOffsets] = otv
 							}
 
-							if attr.Metadata != nil {
+							if attr.Metadata != nil && attr.Metadata != emptyAttrMetadata {
 								t.textOffsets[encoding.PredicateStatementOffsets] = attr.Metadata.Name
 
 								if attr.Metadata.Value != nil {
